@@ -45,6 +45,12 @@ static FILE* vf_fopen(const char* name, const char* mode)
   return (FILE*)(void*)v;
 }
 
+/* concrete, distinct handles for the standard streams (left as nondet externals they may alias a model file) */
+static VFILE vf_stdout_obj, vf_stderr_obj;
+#undef stdout
+#undef stderr
+#define stdout ((FILE*)(void*)&vf_stdout_obj)
+#define stderr ((FILE*)(void*)&vf_stderr_obj)
 #define VF_STD(f) ((f) == stdout || (f) == stderr)
 static int vf_fclose(FILE* f) { if (VF_STD(f)) return 0; VF(f)->was_closed++; return 0; }
 static int vf_fflush(FILE* f) { (void)f; return 0; }
@@ -120,6 +126,22 @@ static int vf_fgetc(FILE* f)
   return v->data[v->pos++];
 }
 
+static char* vf_fgets(char* buf, int n, FILE* f)
+{
+  VFILE* v = VF(f);
+  int i = 0;
+  if (n <= 0) return NULL;
+  while (i < n - 1 && v->pos < v->size)
+  {
+    unsigned char c = v->data[v->pos++];
+    buf[i++] = (char)c;
+    if (c == '\n') break;
+  }
+  if (i == 0) { v->eof = 1; return NULL; }
+  buf[i] = 0;
+  return buf;
+}
+
 static int vf_fputc(int c, FILE* f)
 {
   unsigned char b = (unsigned char)c;
@@ -143,6 +165,7 @@ static int vf_fputs(const char* s, FILE* f)
 #undef fwrite
 #undef fread
 #undef fgetc
+#undef fgets
 #undef fputc
 #undef fputs
 #undef feof
@@ -156,6 +179,7 @@ static int vf_fputs(const char* s, FILE* f)
 #define fwrite vf_fwrite
 #define fread vf_fread
 #define fgetc vf_fgetc
+#define fgets vf_fgets
 #define fputc vf_fputc
 #define fputs vf_fputs
 #define feof vf_feof
